@@ -259,10 +259,14 @@ func RunFaultyOpen(name string, sc Scenario, opts verifmc.Options) (*verifmc.Sch
 	dir := crashfs.New()
 	batches := sc.Clients[0]
 	m := harness.NewModel()
+	earlier := map[string]bool{} // contents after a strict prefix of the first life's batches
 	for _, b := range batches {
+		earlier[m.Content()] = true
 		m.Apply(b)
 	}
 	first := m.Content()
+	delete(earlier, first)
+	failKey := ""
 	extra := harness.BatchSpec{{Kind: 'U', ID: "z", Ver: "9"}}
 	m.Apply(extra)
 	second := m.Content()
@@ -313,6 +317,10 @@ func RunFaultyOpen(name string, sc Scenario, opts verifmc.Options) (*verifmc.Sch
 			c, oerr := harness.Observe(r)
 			_ = r.Close()
 			if oerr != nil || c != first {
+				if oerr == nil && earlier[c] && strings.Contains(strings.Join(injLog, ","), "load.") {
+					// a load that failed once was taken for a damaged snapshot: the writer fell back
+					failKey = "open:read-error-at-open-falls-back-to-an-older-snapshot"
+				}
 				verifmc.Fail(fmt.Sprintf("a writer opened under faults %v shows {%s} (%v), expected {%s}", injLog, c, oerr, first))
 			}
 			if berr := w2.Batch(harness.MakeBatch(extra)); berr == nil {
@@ -352,6 +360,7 @@ func RunFaultyOpen(name string, sc Scenario, opts verifmc.Options) (*verifmc.Sch
 	res.Counts["faults_injected"] = int64(injected)
 	res.Notes = injLog
 	if s.Failure != "" {
+		res.Key = failKey
 		if strings.HasPrefix(s.Failure, "horizon") {
 			res.Failure = fmt.Sprintf("did not come to rest within the step horizon after faults %v", injLog)
 		}
